@@ -102,9 +102,13 @@ func (r *refModel) enabled(a action, implState hsms.ConnState) bool {
 	}
 	switch a {
 	case aCC:
-		// one TCP-up per generation; a new generation starts only after the previous one's
-		// disconnect was processed. A TCP-up racing a Close is producible (accept vs Close).
-		return !r.connected && !pendingDisc && r.gens < 2
+		// one TCP-up per generation; a new generation starts only after the previous one
+		// ended (a disconnect / T7 / close was processed). A SECOND TCPDown of the old
+		// generation (read error + write error, both raised before teardown cancelled the
+		// generation) may still sit in the queue: producible. A TCP-up racing a Close is
+		// producible too (accept vs Close).
+		_ = pendingDisc
+		return !r.connected && r.gens < 2
 	case aCS:
 		return r.connected // Select.req / Select.rsp(0) arrives on a live link (no-op CAS if not NotSelected)
 	case aCSL:
@@ -139,10 +143,12 @@ func (r *refModel) step() (ev qev) {
 	}
 	switch ev.ev {
 	case hsms.VerifEvDisconnect:
-		if r.A != hsms.NotConnectedState {
+		// a disconnect belongs to the generation whose transport raised it: one raised by
+		// generation N must not take generation N+1 down
+		if ev.token == r.gens && r.connected {
 			r.A = hsms.NotConnectedState
+			r.connected, r.armed = false, 0
 		}
-		r.connected, r.armed = false, 0
 	case hsms.VerifEvT7Timeout:
 		if ev.token == r.dwell && r.A == hsms.NotSelectedState {
 			r.A = hsms.NotConnectedState
@@ -192,8 +198,8 @@ func replayGraph(hist []action) (key string, enabled []action, fail *gfail) {
 		case aDisc:
 			v.Inject(hsms.VerifEvDisconnect)
 			r.discs++
-			r.queue = append(r.queue, qev{ev: hsms.VerifEvDisconnect})
-			log = append(log, desc)
+			r.queue = append(r.queue, qev{ev: hsms.VerifEvDisconnect, token: r.gens})
+			log = append(log, fmt.Sprintf("%s[generation %d]", desc, r.gens))
 		case aT7:
 			v.Inject(hsms.VerifEvT7Timeout)
 			r.queue = append(r.queue, qev{ev: hsms.VerifEvT7Timeout, token: r.armed})
@@ -283,6 +289,9 @@ func replayGraph(hist []action) (key string, enabled []action, fail *gfail) {
 		qs[i] = fmt.Sprint(e)
 		if i < len(r.queue) && r.queue[i].ev == hsms.VerifEvT7Timeout {
 			qs[i] += fmt.Sprintf("@%d", r.dwell-r.queue[i].token) // relative age of the arming
+		}
+		if i < len(r.queue) && r.queue[i].ev == hsms.VerifEvDisconnect {
+			qs[i] += fmt.Sprintf("@g%d", r.gens-r.queue[i].token) // raised by the current (0) or an older generation
 		}
 	}
 	key = fmt.Sprintf("%v|%v|%v|%s|ref:%v,%v,%v,%v,armed=%d,discs=%d,gens=%d,t7=%d,ln=%v", v.State(), v.LastReacted(), v.Closed(), strings.Join(qs, ","),
